@@ -1,8 +1,8 @@
 package main
 
 import (
-	"go/token"
 	"go/ast"
+	"go/token"
 	"strings"
 
 	"golang.org/x/tools/go/ssa"
